@@ -487,10 +487,47 @@ Fixpoint mismatches (p : params) (st : state) (cases : list (list op * list out)
 Definition mk (l : list nat) : str := map ascii_of_nat l.
 
 Lemma enum_by_number m s name z : py_int s = Some z -> by_value m z = Some name -> parse_enum m s = Ok (VEnum name).
-Proof. intros H1 H2. unfold parse_enum. rewrite H1, H2. reflexivity. Qed.
-Lemma enum_by_name m s name : py_int s = None -> by_name m (upper s) = Some name -> parse_enum m s = Ok (VEnum name).
-Proof. intros H1 H2. unfold parse_enum. rewrite H1, H2. reflexivity. Qed.
+Proof. intros H1 H2. unfold parse_enum, parse_enum_with. rewrite H1, H2. reflexivity. Qed.
+Lemma enum_by_name m s name : py_int s = None -> by_name m s = None -> by_name m (upper s) = Some name -> parse_enum m s = Ok (VEnum name).
+Proof. intros H1 H0 H2. unfold parse_enum, parse_enum_with. rewrite H1. cbn [enum_lookup by_names spell]. rewrite H0, H2. reflexivity. Qed.
 Lemma enum_rejects m s z :
-  (py_int s = None \/ by_value m z = None /\ py_int s = Some z) -> by_name m (upper s) = None ->
+  (py_int s = None \/ by_value m z = None /\ py_int s = Some z) -> by_name m s = None -> by_name m (upper s) = None ->
   parse_enum m s = Err KeyError.
-Proof. intros [H1|[H0 H1]] H2; unfold parse_enum; rewrite H1, ?H0, H2; reflexivity. Qed.
+Proof.
+  intros [H1|[H0 H1]] H3 H2; unfold parse_enum, parse_enum_with; rewrite H1, ?H0; cbn [enum_lookup by_names spell]; rewrite H3, H2; reflexivity.
+Qed.
+
+(* a member is found by its own name, whatever its letter case, for every list of spellings that tries the name itself first *)
+Lemma by_name_member (m : list (str * Z)) (n : str) : In n (map fst m) -> by_name m n = Some n.
+Proof.
+  induction m as [|[k v] r IH]; cbn [map fst In by_name]; intros H; [contradiction|].
+  destruct (str_eqb k n) eqn:E; [apply str_eqb_eq in E; rewrite E; reflexivity|].
+  destruct H as [H|H]; [subst k; rewrite str_eqb_refl in E; discriminate | apply IH; exact H].
+Qed.
+Lemma by_name_sound (m : list (str * Z)) (s n : str) : by_name m s = Some n -> n = s /\ In n (map fst m).
+Proof.
+  induction m as [|[k v] r IH]; cbn [map fst In by_name]; intros H; [discriminate|].
+  destruct (str_eqb k s) eqn:E.
+  - apply str_eqb_eq in E. inversion H; subst. split; [reflexivity | left; reflexivity].
+  - destruct (IH H) as [A B]. split; [exact A | right; exact B].
+Qed.
+Theorem enum_member_by_own_name (l : list nametr) (m : list (str * Z)) (n : str) :
+  In n (map fst m) -> py_int n = None -> parse_enum_with (NExact :: l) m n = Ok (VEnum n).
+Proof.
+  intros H1 H2. unfold parse_enum_with. rewrite H2. cbn [by_names spell]. rewrite (by_name_member m n H1). reflexivity.
+Qed.
+(* what parses by name is a member; a text that is neither a member's number nor (exactly or upper-cased) a member's name is rejected *)
+Theorem enum_parse_sound (m : list (str * Z)) (s n : str) :
+  py_int s = None -> parse_enum m s = Ok (VEnum n) -> In n (map fst m) /\ (n = s \/ n = upper s).
+Proof.
+  intros H1. unfold parse_enum, parse_enum_with. rewrite H1. cbn [enum_lookup by_names spell].
+  destruct (by_name m s) as [a|] eqn:E1.
+  - intros H; inversion H; subst. destruct (by_name_sound _ _ _ E1) as [A B]. split; [exact B | left; exact A].
+  - destruct (by_name m (upper s)) as [a|] eqn:E2; [|discriminate].
+    intros H; inversion H; subst. destruct (by_name_sound _ _ _ E2) as [A B]. split; [exact B | right; exact A].
+Qed.
+(* the pinned lookup (upper-cased spelling only) could not find a member whose name is not upper case: repaired defect *)
+Definition lowname : str := s2l "low".
+Lemma enum_member_pinned_refuted :
+  exists m n, In n (map fst m) /\ py_int n = None /\ parse_enum_with [NUpper] m n = Err KeyError.
+Proof. exists [(lowname, 7)], lowname. split; [left; reflexivity|]. split; vm_compute; reflexivity. Qed.
